@@ -195,3 +195,10 @@ CHECKS["C26"] = {
     "text": "quick: 857 work items, 376k plain attempts + 16k injected re-executions, 124k distinct non-trivial, 136 of 299 `raise TransformationError` sites reached; thorough: 4.85M attempts + 646k injections, 203 of 299 sites. PSyIR seeds for generic transformations, LFRic and GOcean PSy-layer seeds for domain transformations (incl. a module-inlined history).",
     "note": "Only TransformationError is judged (other exception types are counted); injected refusals swallowed by try/except are counted; for PSy layers symbol tables are not part of the fingerprint (loop-bound symbols are created lazily by read-only queries). The quick tier hits an injection cap of 3 and an option-pair cap of 10 per target (exhaustive=false is reported). Open: verbose option leaves a comment before refusing; KernelModuleInlineTrans adds use statements before refusing; composite transformations keep applied sub-steps when a later nested call is MADE to refuse (injection only). Fixed: four non-atomic refusals.",
 }
+
+CHECKS["C24"] = {
+    "level": "model_checking",
+    "technique": "exhaustive enumeration of LFRic algorithm programs: every set partition of the field-argument positions of 1-2 (quick) / 1-3 (thorough) kernel sequences x spelling palettes (plain names, array elements, structure components, clash candidates, case and blank variations) x invoke naming assignments, pushed through the real generator on BOTH code paths (alg_gen.Alg rewrite and the PSyIR algorithm path); a static positional oracle built from the generated source program (not PSyclone's parse) traces every kernel-argument position back to the algorithm actual; accepted programs are also compiled against the stub infrastructure and executed against an exact reference evaluation",
+    "text": "quick: 695 programs x 2 paths, 8.2k argument positions resolved, 113 invokes compiled and executed; thorough: 5.9k programs, 84k positions, 7.8k executed invokes. The generated algorithm call must pass exactly the PSy routine's dummies in order; repeated arguments map to one dummy, distinct ones to distinct dummies; every kernel operates on the data of the argument written at that position.",
+    "note": "Repeats inside one kernel are refused by PSyclone for every kernel and are only checked to be refused. Named invokes are renamed in executed programs (names judged statically). Open (PSyIR path only): a structure-component actual in a kernel call that also has a real literal becomes a CodeBlock and is not de-duplicated; SymbolicMaths.equal compares member names case-sensitively. Fixed: stencil extent actual replaced by the dummy name; named single-built-in invoke called by index.",
+}
